@@ -4,23 +4,31 @@
 usage: seed_matrix.py [workers] [seed-ids...]"""
 import json, os, subprocess, sys, glob, threading, queue, re, shutil
 workers = int(sys.argv[1]) if len(sys.argv) > 1 else 3
-only = sys.argv[2:]
+REG = '--regressions' in sys.argv
+only = [a for a in sys.argv[2:] if not a.startswith('--')]
+OUTNAME = 'REGRESSIONS' if REG else 'MATRIX'
+WOFF = 10 if REG else 0
 CHECKS = [c['property_id'] for c in json.load(open('/verif/MANIFEST.json'))['checks']]
 seeds = sorted(d for d in glob.glob('/verif/seeded/*/') if os.path.exists(d + 'patch.diff'))
-if only: seeds = [s for s in seeds if os.path.basename(s.rstrip('/')) in only]
+if REG: seeds = sorted(glob.glob('/verif/seeded/regressions/revert-*.diff'))
+if only: seeds = [s for s in seeds if os.path.basename(s.rstrip('/')).replace('.diff','') in only]
+prev = {}
+if only and os.path.exists(f'/verif/seeded/{OUTNAME}.json'): prev = json.load(open(f'/verif/seeded/{OUTNAME}.json'))
 q = queue.Queue()
 for s in seeds: q.put(s)
 results = {}
 lock = threading.Lock()
 def work(w):
+    w += WOFF
     repo = f'/tmp/seedrepo/r{w}'; out = f'/tmp/seedrepo/v{w}'
     subprocess.run(f'git -C /repo worktree remove --force {repo} 2>/dev/null; git -C /repo worktree prune; git -C /repo worktree add --detach {repo} HEAD', shell=True, capture_output=True)
     while True:
         try: s = q.get_nowait()
         except queue.Empty: break
-        sid = os.path.basename(s.rstrip('/'))
+        sid = os.path.basename(s.rstrip('/')).replace('.diff', '')
+        patch = s if s.endswith('.diff') else s + 'patch.diff'
         subprocess.run(f'git -C {repo} checkout -q -- . && git -C {repo} clean -fdq', shell=True)
-        r = subprocess.run(f'git -C {repo} apply {s}patch.diff', shell=True, capture_output=True, text=True)
+        r = subprocess.run(f'git -C {repo} apply {patch}', shell=True, capture_output=True, text=True)
         row = {}
         if r.returncode != 0:
             row = {'_apply': 'FAILED ' + r.stderr[:200]}
@@ -36,17 +44,18 @@ def work(w):
         subprocess.run(f'git -C {repo} checkout -q -- . && git -C {repo} clean -fdq', shell=True)
         with lock:
             results[sid] = row
-            json.dump(results, open('/verif/seeded/MATRIX.json', 'w'), indent=1, sort_keys=True)
+            json.dump(dict(prev, **results), open(f'/verif/seeded/{OUTNAME}.json', 'w'), indent=1, sort_keys=True)
         print(sid, {c: v['rc'] for c, v in row.items() if isinstance(v, dict) and v['rc'] != 0}, flush=True)
     subprocess.run(f'git -C /repo worktree remove --force {repo}; rm -rf {out} /verif/bin/mc._tmp_seedrepo_r{w}', shell=True, capture_output=True)
 ts = [threading.Thread(target=work, args=(i + 1,)) for i in range(workers)]
 [t.start() for t in ts]; [t.join() for t in ts]
 # merge with previous results when only a subset was run
+results = dict(prev, **results)
 lines = ['| seeded defect | breaks | caught by (quick checks that exit 1 with a VIOLATION line) | silent |', '|---|---|---|---|']
 for sid in sorted(results):
     row = results[sid]
     caught = [f"{c} ({','.join(v['kinds'])})" for c, v in row.items() if isinstance(v, dict) and v['rc'] == 1]
     other = [f"{c}:rc{v['rc']}" for c, v in row.items() if isinstance(v, dict) and v['rc'] not in (0, 1)]
-    lines.append(f"| {sid} | {sid.split('-')[0]} | {'; '.join(caught) or '**none**'} | {len([1 for v in row.values() if isinstance(v, dict) and v['rc']==0])} checks{(' ; ' + ' '.join(other)) if other else ''} |")
-open('/verif/seeded/MATRIX.md', 'w').write('\n'.join(lines) + '\n')
+    lines.append(f"| {sid} | {sid.split('-')[0] if not REG else 'see regressions/index.json'} | {'; '.join(caught) or '**none**'} | {len([1 for v in row.values() if isinstance(v, dict) and v['rc']==0])} checks{(' ; ' + ' '.join(other)) if other else ''} |")
+open(f'/verif/seeded/{OUTNAME}.md', 'w').write('\n'.join(lines) + '\n')
 print('done')
